@@ -211,15 +211,20 @@ fn plan_faults(plan: &Plan, out: &Outcome, refs: &mut RefTable) -> (FaultCounts,
                 f.env_change += 1;
                 continue;
             }
+            Op::SetCwd { .. } => {
+                f.env_change += 1;
+                continue;
+            }
             Op::Project {
                 order,
                 via_hashmap,
                 dups,
                 via_insert,
+                sibling_first,
                 ..
             } => {
                 let ident = order.iter().enumerate().all(|(i, o)| i == *o);
-                if !ident || *via_hashmap || !dups.is_empty() || *via_insert {
+                if !ident || *via_hashmap || !dups.is_empty() || *via_insert || *sibling_first {
                     f.enum_permute += 1;
                 }
             }
@@ -266,6 +271,10 @@ fn drop_unusable_calls(plan: &mut Plan, refs: &mut RefTable) -> u64 {
         for c in t.drain(..) {
             if let Op::SetEnv { value } = &c.op {
                 env = value.clone();
+                keep.push(c);
+                continue;
+            }
+            if let Op::SetCwd { .. } = &c.op {
                 keep.push(c);
                 continue;
             }
